@@ -62,7 +62,9 @@ FIX_COMMITS = ["d6ae502 (passive start-up cancellation: port/listener leak)",
                "1f7834a (502 quoted a long unknown verb in full)",
                "f90dd22 (Code.matches accepted codes shorter than the mask)",
                "6680712 (client data connection opened without connection_timeout)",
-               "30288fd (second of two waiting transfers crashed the session)"]
+               "30288fd (second of two waiting transfers crashed the session)",
+               "913f430 (stat() fallback without MLST failed for '.', '..' and '')",
+               "25ab17f (unreadable directory listed as empty with a success reply)"]
 
 # dimensions added after the fourth wave of seeded changes (plug-in APIs as part of the input space)
 EXTRA = {
